@@ -169,7 +169,7 @@ func iterateJumpCheck(r *hlib.Run, tc *toolchain) {
 				}
 				return
 			}},
-		{"deep-break", "    iterate.outer (c = args.src)(length: 1, advance: 1, unroll: 1) {\n        while true {\n            if c[0] == 3 {\n                break.outer\n            }\n            break\n        }\n        " + log + "    }.outer\n",
+		{"deep-break", "    iterate.outer (c = args.src)(length: 1, advance: 1, unroll: 1) {\n        v = c[0]\n        while true {\n            if v == 3 {\n                break.outer\n            }\n            break\n        }\n        this.log[this.cnt & 63] = v\n        this.cnt ~mod+= 1\n    }\n",
 			func(n int) (o []int) {
 				for i := 0; i < n && i != 3; i++ {
 					o = append(o, i)
@@ -180,7 +180,7 @@ func iterateJumpCheck(r *hlib.Run, tc *toolchain) {
 	const maxN = 7
 	for k, p := range probes {
 		pkg := fmt.Sprintf("itj%d", k)
-		src := "pub struct it?(\n    cnt : base.u32,\n    log : array[64] base.u8,\n)\n\npub func it.r!(src: roslice base.u8) {\n    var c : roslice base.u8\n" + p.body + "}\n"
+		src := "pub struct it?(\n    cnt : base.u32,\n    log : array[64] base.u8,\n)\n\npub func it.r!(src: roslice base.u8) {\n    var c : roslice base.u8\n    var v : base.u8\n" + p.body + "}\n"
 		if _, err := parseAndCheck(pkg+".wuffs", []byte(src)); err != nil {
 			r.Count("iterate-jump:rejected-by-checker")
 			continue
